@@ -26,6 +26,8 @@ pub enum Pop {
     Pair,
     /// Long un-synced histories that saturate the queues.
     SeqLong,
+    /// Wide key universes (more entries than one eviction/purge batch handles).
+    SeqWide,
 }
 
 impl Pop {
@@ -38,6 +40,7 @@ impl Pop {
             "seq-callback" => Pop::SeqCallback,
             "pair" => Pop::Pair,
             "seq-long" => Pop::SeqLong,
+            "seq-wide" => Pop::SeqWide,
             _ => return None,
         })
     }
@@ -50,6 +53,7 @@ impl Pop {
             Pop::SeqCallback => "seq-callback",
             Pop::Pair => "pair",
             Pop::SeqLong => "seq-long",
+            Pop::SeqWide => "seq-wide",
         }
     }
     pub fn stream(&self) -> u64 {
@@ -61,6 +65,7 @@ impl Pop {
             Pop::SeqCallback => 5,
             Pop::Pair => 6,
             Pop::SeqLong => 7,
+            Pop::SeqWide => 8,
         }
     }
 }
@@ -96,6 +101,7 @@ pub fn gen_config(rng: &mut Prng, pop: Pop) -> Config {
         }
     };
     let cap = match pop {
+        Pop::SeqWide => *rng.pick(&[None, None, Some(150u64), Some(600)]),
         Pop::SeqPolicy => Some(*rng.pick(&[1u64, 2, 2, 3, 3, 4, 4, 5, 6, 8, 12, 16])),
         Pop::Pair => {
             if rng.chance(4, 5) {
@@ -130,6 +136,12 @@ pub fn gen_config(rng: &mut Prng, pop: Pop) -> Config {
         Some(10 * SEC),
     ];
     let (ttl, tti) = match pop {
+        Pop::SeqWide => match rng.below(4) {
+            0 => (Some(3 * SEC), None),
+            1 => (None, Some(3 * SEC)),
+            2 => (Some(7 * SEC), Some(3 * SEC)),
+            _ => (None, None),
+        },
         Pop::SeqExpiry => {
             let d: [u64; 6] = [0, 1, 3 * SEC, 7 * SEC, 10 * SEC, 10 * SEC];
             match rng.below(3) {
@@ -324,6 +336,17 @@ fn random_mix(rng: &mut Prng, pop: Pop, cfg: &Config) -> [u32; N_KINDS] {
             m[K_ITER] = m[K_ITER].max(1);
             m[K_INVAL_ALL] = m[K_INVAL_ALL].min(1);
         }
+        Pop::SeqWide => {
+            m[K_INSERT] = 24;
+            m[K_GET] = 4;
+            m[K_CONTAINS] = 2;
+            m[K_ITER] = 1;
+            m[K_INVAL] = 1;
+            m[K_INVAL_ALL] = if rng.chance(1, 3) { 1 } else { 0 };
+            m[K_INVAL_IF] = if rng.chance(1, 3) { 1 } else { 0 };
+            m[K_ADVANCE] = if cfg.has_expiry() { 1 } else { 0 };
+            m[K_SYNC] = 1;
+        }
         Pop::Pair => {
             m[K_INSERT] = 6;
             m[K_GET] = 6;
@@ -349,6 +372,7 @@ pub fn generate(pop: Pop, seed: u64, run: u64) -> Trace {
     let mut rng = Prng::new(sub);
     let cfg = gen_config(&mut rng, pop);
     let universe: u16 = match pop {
+        Pop::SeqWide => rng.range(110, 400) as u16,
         Pop::SeqPolicy => {
             let c = cfg.cap.unwrap_or(4) as u16;
             (c + 1 + rng.below(3) as u16).min(crate::seq::KEY_UNIVERSE_MAX)
@@ -356,6 +380,7 @@ pub fn generate(pop: Pop, seed: u64, run: u64) -> Trace {
         _ => 1 + rng.below(6) as u16,
     };
     let len = match pop {
+        Pop::SeqWide => rng.range(250, 900) as usize,
         Pop::SeqLong => rng.range(400, 1500) as usize,
         Pop::SeqPolicy => rng.range(5, 80) as usize,
         Pop::Pair => rng.range(3, 40) as usize,
